@@ -779,7 +779,15 @@ pub fn run_property(ctx: &Ctx, def: PropertyDef) -> i32 {
 
     // 2. sections
     let mut secs: Vec<SectionResult> = vec![];
+    // VERIF_ONLY_SECTIONS=a,b restricts an *experimental* run to some sections; evidence is then
+    // only written when VERIF_EVIDENCE_DIR redirects it
+    let only: Option<Vec<String>> = std::env::var("VERIF_ONLY_SECTIONS").ok().map(|v| v.split(',').map(|x| x.trim().to_string()).collect());
     for s in &def.sections {
+        if let Some(o) = &only {
+            if !o.iter().any(|x| x == s.name()) {
+                continue;
+            }
+        }
         let r = s.run(ctx);
         secs.push(r);
     }
@@ -869,6 +877,10 @@ pub fn run_property(ctx: &Ctx, def: PropertyDef) -> i32 {
     let evdir = std::env::var("VERIF_EVIDENCE_DIR")
         .map(PathBuf::from)
         .unwrap_or_else(|_| ctx.verif_dir.join("evidence"));
+    if only.is_some() && std::env::var("VERIF_EVIDENCE_DIR").is_err() {
+        eprintln!("VERIF_ONLY_SECTIONS is for experiments: set VERIF_EVIDENCE_DIR as well");
+        return 2;
+    }
     let _ = std::fs::create_dir_all(&evdir);
     let evpath = evdir.join(format!("{}.json", ctx.prop));
     if let Err(e) = std::fs::write(&evpath, serde_json::to_string_pretty(&evidence).unwrap()) {
